@@ -211,8 +211,12 @@ def run(chk, replay=None):
         w = [[0] * nb for _ in range(nc)]
         pos = [(c, b) for c in range(nc) for b in range(nb) if data[c, b] > 0]
         zer = [(c, b) for c in range(nc) for b in range(nb) if data[c, b] == 0]
+        crowd = t in (5, 6, 8) and not f32       # S-, M- and CL-test on a catalog that puts hundreds of events into one or two bins
+        if crowd:
+            n_obs = 400
         for _ in range(n_obs):
-            c, b = rng.choice(zer) if (zer and rng.random() < 0.02) else rng.choice(pos[: max(1, len(pos) // 3)] if rng.random() < 0.6 else pos)
+            c, b = rng.choice(zer) if (zer and rng.random() < 0.02 and not crowd) else rng.choice(
+                pos[:2] if crowd else (pos[: max(1, len(pos) // 3)] if rng.random() < 0.6 else pos))
             w[c][b] += 1
         fc = B.forecast(data, layout=['C', 'F', 'T'][(t // 4) % 3], dtype=('float32' if f32 else None))
         if t % 7 in (3, 5) and not f32:
